@@ -3,7 +3,7 @@ CONSTANTS
   Ids <- Ids2
   Calls <- CallsK
   TagOps <- TagOps3
-  Times <- Times3
+  Times <- Times2
   MaxTests = 2
   MaxTags = 2
   MaxTime = 2
